@@ -313,6 +313,13 @@ class Interp:
         finally:
             self._inst_depth = depth
 
+    def assume_pwi2(self, f):
+        """assume forall i,j:Int. f(i,j); instantiated on every ordered pair of index terms of the path (few)"""
+        lst = self.__dict__.setdefault("pwi2", [])
+        lst.append(f)
+        self.assume_pwi(lambda i: z3.And(*[f(i, j) for j in self.__dict__.get("idxs", [])] +
+                                         [f(j, i) for j in self.__dict__.get("idxs", [])]) if self.__dict__.get("idxs") else TRUE)
+
     def assume_pw(self, f):
         """assume forall k. f(k)   (f: z3 key term -> formula); instantiated on all keys of the path"""
         self.pw.append(f)
@@ -1037,6 +1044,8 @@ class Interp:
             return models.construct(self, f.name, args, kwargs)
         if isinstance(f, Obj) and f.kind == "rec" and resolve_method(f.cls, "__call__"):
             return self.call_repo(f.cls, "__call__", f, args, kwargs)
+        if hasattr(f, "py_call"):
+            return f.py_call(self, args, kwargs)
         if isinstance(f, Builtin):
             return models.call_builtin(self, f.name, args, kwargs)
         raise Unsupported("call of %r" % (f,))
